@@ -322,6 +322,14 @@ func init() {
 		in.m.faultBudget[strArg(a[0])] = int(in.concInt(a[1], "fault budget"))
 		return nil
 	})
+	reg("FaultCap", func(in *Interp, fr *frame, a []Value) Value {
+		in.m.faultCap = int(in.concInt(a[0], "fault cap"))
+		in.m.faultCapSet = in.m.faultCap >= 0
+		return nil
+	})
+	reg("Faulted", func(in *Interp, fr *frame, a []Value) Value {
+		return mkBV(64, uint64(in.m.faulted[strArg(a[0])+":"+strArg(a[1])]))
+	})
 	reg("MapOrderAll", func(in *Interp, fr *frame, a []Value) Value { in.m.mapOrderAll = a[0].(Bool).C; return nil })
 
 	// boolean combinators that do not fork
